@@ -110,7 +110,7 @@ def lookup(ctx: Ctx, rule: str) -> None:
                "" if ok else "an execution may read a result that is not its own (lookup no longer filters on both name and uid)")
 
 
-def verdict(ctx: Ctx, rule: str) -> None:
+def verdict(ctx: Ctx, rule: str, tools_only: bool = False) -> None:
     fn = ctx.repo.func(OK_FN)
     ctx.touch(OK_FN)
     anys = [c for c in calls_in(fn.node) if isinstance(c.func, ast.Name) and c.func.id == "any" and c.args
@@ -130,11 +130,24 @@ def verdict(ctx: Ctx, rule: str) -> None:
         og = alls[0].args[0].generators[0]
         outer_iter, outer_var = ast.unparse(og.iter), ast.unparse(og.target)
     t = ast.unparse(g.target)
+    # "same test": equality of one key computed alike for the inner and the outer result
+    same_key, raw_name = False, False
+    if len(g.ifs) == 1 and isinstance(g.ifs[0], ast.Compare) and len(g.ifs[0].ops) == 1 and isinstance(g.ifs[0].ops[0], ast.Eq) and outer_var:
+        a, b = g.ifs[0].left, g.ifs[0].comparators[0]
+        ka = ast.unparse(norm.substitute(a, None, {t: "_R", outer_var: "_R"}))
+        kb = ast.unparse(norm.substitute(b, None, {t: "_R", outer_var: "_R"}))
+        uses = {n_.id for x in (a, b) for n_ in ast.walk(x) if isinstance(n_, ast.Name)}
+        same_key = ka == kb and {t, outer_var} <= uses
+        raw_name = ka == "_R['name'].name"
     ok_inner = (ast.unparse(g.iter) == "self.job.result.tests" and outer_iter == "self.job.result.tests"
-                and ast.unparse(gen.elt) == f"STATUSES_MAPPING[{t}['status']]"
-                and [ast.unparse(c) for c in g.ifs] in ([f"{t}['name'].name == {outer_var}['name'].name"], [f"{outer_var}['name'].name == {t}['name'].name"]))
-    ctx.record(rule, "TABLE", OK_FN, "inner: any(STATUSES_MAPPING[t['status']] for t in all results if same test name as the outer test)", ok_inner,
+                and ast.unparse(gen.elt) == f"STATUSES_MAPPING[{t}['status']]" and same_key)
+    ctx.record(rule, "TABLE", OK_FN, "inner: any(STATUSES_MAPPING[t['status']] for t in all results if same test as the outer test (one key of the result name, computed alike for both))", ok_inner,
                {"inner": ast.unparse(gen), "outer": outer_iter}, "" if ok_inner else "the per-test acceptance of the verdict changed")
+    if not tools_only:
+      ctx.record(rule + "n", "TABLE", OK_FN, "the tries of a test are grouped by a worker-invariant key (tries are shared among workers: a retry may run on another worker)", ok_inner and not raw_name,
+                 {"key": "full result name" if raw_name else "derived"},
+                 "" if ok_inner and not raw_name else "the verdict groups the tries by the full test name, which carries the worker's net: FAIL on one worker and the retry PASS on another "
+                 "(tries are shared) leaves the first name without an acceptable result and the run is judged failed")
     # outer quantifier: False as soon as one test has no acceptable result, True otherwise
     ok_outer = False
     if alls and not loops:
@@ -182,6 +195,16 @@ def verdict(ctx: Ctx, rule: str) -> None:
     ok_r = ok_r and len(ifs) == 1 and any(isinstance(x, ast.Call) and call_name(x) == "add" for x in ast.walk(ifs[0]))
     ctx.record(rule + "r", "GUARD", fr, "summary gets 'FAIL' iff not all_results_ok() (after the workers ran)", ok_r, {"sites": n},
                "" if ok_r else "the job summary no longer reflects the verdict")
+    # ... and nothing else makes the run fail: statuses copied into the summary are acceptable ones unless the verdict was negative
+    ups = [c for c in calls_in(f2.node) if call_name(c) == "update" and ast.unparse(c.func.value) == "summary"]
+    unfiltered = [c for c in ups if "STATUSES_MAPPING" not in ast.unparse(c) and not any(
+        "STATUSES_MAPPING" in ast.unparse(d.value) for a in c.args for nm in ast.walk(a) if isinstance(nm, ast.Name)
+        for d in ast.walk(f2.node) if isinstance(d, ast.Assign) and any(isinstance(t_, ast.Name) and t_.id == nm.id for t_ in d.targets))]
+    if not tools_only:
+      ctx.record(rule + "s", "GUARD", fr, "the statuses of single tries reach the summary (= exit code) only through the verdict: raw try statuses copied into it are filtered by acceptability",
+                 not unfiltered, {"summary_updates": [ast.unparse(c)[:120] for c in ups]},
+                 "" if not unfiltered else "run_suite copies the status of every executed try into the summary: a FAIL that was retried successfully still makes avocado exit with "
+                 "AVOCADO_TESTS_FAIL although all_results_ok() is True")
     fr2 = "intertest_setup.py:with_cartesian_graph.<locals>.wrapper"
     f3 = ctx.repo.func(fr2)
     ctx.touch(fr2)
@@ -300,6 +323,54 @@ def replaced_run_policies(ctx: Ctx, rule: str) -> None:
                {"flags": found, "once_per_worker": once}, "" if not bad else bad[0])
 
 
+def inflight_not_a_status(ctx: Ctx, rule: str) -> None:
+    """The UNKNOWN placeholder of a try that is still running counts as a spent try but is not a status 'so far': it must not be held
+    against a user-given rerun_status (a worker with a try left would otherwise refuse to retry and walk past the unfinished setup)."""
+    fref = "cartgraph/node.py:TestNode.should_rerun"
+    fn = ctx.repo.func(fref)
+    ctx.touch(fref)
+    defs = [s_ for s_ in ast.walk(fn.node) if isinstance(s_, ast.Assign) and ast.unparse(s_.targets[0]) == "rerun_statuses_violated"]
+    ok, found = False, None
+    if len(defs) == 1:
+        found = ast.unparse(defs[0].value)
+        ops, cur = [], defs[0].value
+        while isinstance(cur, ast.BinOp) and isinstance(cur.op, ast.Sub):
+            ops.append(cur.right)
+            cur = cur.left
+        excluded = any(isinstance(o, ast.Set) and any(isinstance(e, ast.Constant) and e.value == "unknown" for e in o.elts) for o in ops)
+        filtered = all("unknown" in ast.unparse(s_.value) for s_ in ast.walk(fn.node) if isinstance(s_, ast.Assign) and ast.unparse(s_.targets[0]) == "test_statuses") and \
+            any(isinstance(s_, ast.Assign) and ast.unparse(s_.targets[0]) == "test_statuses" for s_ in ast.walk(fn.node))
+        ok = ast.unparse(cur) == "{*test_statuses}" and any(ast.unparse(o) == "{*rerun_status}" for o in ops) and (excluded or filtered)
+    ctx.record(rule, "TABLE", fref, "statuses outside the rerun set stop the retries, the in-flight 'unknown' placeholder excepted", ok, {"definition": found},
+               "" if ok else f"the placeholder of a try still running elsewhere is held against rerun_status ({found}): with a user-given rerun set a worker that still has a try "
+               "refuses to retry and treats the unfinished setup as done")
+
+
+def replay_budget(ctx: Ctx, rule: str) -> None:
+    """Replay: a test without an acceptable previous result is executed.  Previous results count as spent tries, so the default number of
+    tries under replay must exceed the number of replayed results (or they must not be counted)."""
+    fref = "cartgraph/node.py:TestNode.should_rerun"
+    fn = ctx.repo.func(fref)
+    ctx.touch(fref)
+    mt = [s_ for s_ in ast.walk(fn.node) if isinstance(s_, ast.Assign) and ast.unparse(s_.targets[0]) == "max_tries"]
+    ok, found = False, None
+    if len(mt) == 1 and isinstance(mt[0].value, ast.Call) and len(mt[0].value.args) == 2:
+        default = mt[0].value.args[1]
+        found = ast.unparse(default)
+        dtext = found
+        for nm in {n_.id for n_ in ast.walk(default) if isinstance(n_, ast.Name)}:
+            ds = [s_ for s_ in ast.walk(fn.node) if isinstance(s_, ast.Assign) and len(s_.targets) == 1 and isinstance(s_.targets[0], ast.Name) and s_.targets[0].id == nm]
+            dtext += " ; " + " ; ".join(ast.unparse(d_.value) for d_ in ds)
+        ok = "results" in dtext
+        if not ok:
+            # or: the counted statuses exclude replayed results
+            ts = [ast.unparse(s_.value) for s_ in ast.walk(fn.node) if isinstance(s_, ast.Assign) and ast.unparse(s_.targets[0]) == "test_statuses"]
+            ok = bool(ts) and all("replay" in x for x in ts)
+    ctx.record(rule, "CONST", fref, "under replay the default number of tries exceeds the tries already spent in the replayed jobs (or replayed results are not counted as tries)", ok,
+               {"default_max_tries": found}, "" if ok else f"under replay max_tries defaults to `{found}` while every replayed result counts as a spent try: a test that failed in two replayed "
+               "jobs (or was retried twice in one) has no try left, is not executed and stays without an acceptable result")
+
+
 def run(ctx: Ctx) -> None:
     ctx.call(N.should_rerun_table, "1")
     ctx.call(retry_ids, "2")
@@ -317,6 +388,8 @@ def run(ctx: Ctx) -> None:
 
     ctx.call(A.definitions, "11", only=('shared_results','id'))
     ctx.call(replaced_run_policies, "12")
+    ctx.call(inflight_not_a_status, "1i")
+    ctx.call(replay_budget, "5b")
 
 
 NODE = "cartgraph/node.py"
